@@ -12,7 +12,7 @@ from pathlib import Path
 
 from . import exprs, kernels
 from .catalogue import BROADCAST_TARGET, CATALOGUE
-from .common import WORK, Timer, dump, dyadic, machinery_hash, seed, source_hash, tier, undyadic
+from .common import WORK, Timer, dump, dyadic, garbage, machinery_hash, seed, source_hash, tier, undyadic
 from .native import Pool
 from .tlc import MachineryError, run_tlc, workdir
 
@@ -194,8 +194,22 @@ def _run(t: str, s: int) -> Result:
     for group, text in CATALOGUE + BROADCAST_TARGET + extra:
         asg = exprs.parse(text)
         got = 0
-        for fm in format_choices(asg, rng, P["formats_per_assignment"], P["tries"]):
-            if got >= (2 if group == "spec-generated" else P["formats_per_assignment"]):
+        # small format spaces are taken whole: every format assignment when there are at most 16 (64 for the
+        # two-tensor shapes of the copy / transpose / literal groups, thorough: 64 / 512 for everything)
+        orders_ = exprs.tensor_orders(asg)
+        space = 1
+        for n_ in orders_:
+            space *= len(kernels.all_formats(orders_[n_]))
+        limit = (64 if group in ("copy", "transpose", "literal") and len(orders_) == 2 else 16) if t == "quick" else \
+                (512 if len(orders_) <= 2 else 64)
+        whole = space <= limit and group != "spec-generated"
+        if whole:
+            names_ = list(orders_)
+            choices = [dict(zip(names_, combo)) for combo in itertools.product(*[kernels.all_formats(orders_[n_]) for n_ in names_])]
+        else:
+            choices = format_choices(asg, rng, P["formats_per_assignment"], P["tries"])
+        for fm in choices:
+            if not whole and got >= (2 if group == "spec-generated" else P["formats_per_assignment"]):
                 break
             probe = kernels.compile_kernel(text, fm, ["evaluate"], [], cap=2)
             if probe.error:
@@ -467,6 +481,10 @@ def _run(t: str, s: int) -> Result:
                                   "dims": wm["dims"], "content": wm["content"], "what": o["chain"], "out": o["out"]})
             if "chain" in o:
                 chained += 1
+            if any(garbage(v) for v in o["out"]["vals"]) and not exprs.shape_tags(k.asg):
+                wide_bad.append({"kernel": ki, "text": k.text, "formats": k.formats, "cap": cap,
+                                 "what": "garbage-value", "input": wm, "out": o["out"]})
+                continue
             vals = [dyadic(v) for v in o["out"]["vals"]]
             if any(v is None or abs(v["n"]) > 32767 for v in vals):
                 continue  # outside the model's value box: not judged
